@@ -350,8 +350,12 @@ class TCPTransport(Transport):
         if isinstance(message, list) and self._onUtilityMessage(conn, message):
             return
 
-        # At this point, message should be either a node ID (i.e. address) or 'readonly'
-        node = self._nodeAddrToNode[message] if message in self._nodeAddrToNode else None
+        # At this point, message should be either a node ID (i.e. address) or 'readonly'.
+        # Anything else (also something unhashable) comes from a stranger: it is disconnected below.
+        try:
+            node = self._nodeAddrToNode.get(message)
+        except TypeError:
+            node = None
 
         if node is None and message != 'readonly':
             conn.disconnect()
@@ -374,8 +378,12 @@ class TCPTransport(Transport):
             self._onReadonlyNodeConnected(node)
 
     def _onUtilityMessage(self, conn, message):
-        command = message[0]
-        if command in self._onUtilityMessageCallbacks:
+        try:
+            command = message[0]
+            known = command in self._onUtilityMessageCallbacks
+        except (IndexError, TypeError):
+            return False
+        if known:
             message[0] = command.upper()
             callback = functools.partial(self._utilityCallback, conn = conn, args = message)
             try:
